@@ -151,7 +151,13 @@ type Replay struct {
 	Detail   string          `json:"detail"`
 	Culprits []string        `json:"culprits,omitempty"`
 	Shrunk   int             `json:"shrink_steps"`
-	Case     json.RawMessage `json:"case"`
+	// Confirmed says in how many of three fresh processes the minimised case
+	// failed the same way before it was written out.  Fewer than three means
+	// the tree under test behaves nondeterministically beyond what the
+	// simulation controls (e.g. an order among map keys that are equal in
+	// everything but their address).
+	Confirmed string          `json:"confirmed,omitempty"`
+	Case      json.RawMessage `json:"case"`
 }
 
 // Finding is one entry of /verif/known_findings.json.
